@@ -1751,14 +1751,14 @@ async fn run_history(
     if matches!(out.fail, Some(Fail::Closed { .. })) {
         // a connection that went away because the session task panicked
         if let Some((loc, msg)) = LAST_PANIC.lock().unwrap().take() {
-            if loc.starts_with("daemon/") || loc.starts_with("table/") || loc.starts_with("packet/") {
+            if loc.starts_with("daemon/") || loc.starts_with("table/") || loc.starts_with("packet/")
+            {
                 out.fail = Some(Fail::Panic { loc, msg });
             }
         }
     }
     out
 }
-
 
 /// one round of the keepalive history; gives the session back (possibly a new one)
 async fn idle_round(run: &mut Run<'_>, mut r: Remote, rng: &mut Rng) -> Result<Remote, Fail> {
@@ -1809,7 +1809,13 @@ async fn idle_round(run: &mut Run<'_>, mut r: Remote, rng: &mut Rng) -> Result<R
 /// The keepalive history: hold time 3 s (KEEPALIVE every second), rounds of
 /// [silence until the daemon's KEEPALIVE is due, a few operations, quiescent point,
 /// judged restart].  Runs next to the other histories of the shard, on its own RIB.
-async fn run_idle(cfg: Cfg, seed: u64, stop: Arc<AtomicBool>, max_rounds: u64, wd_s: u64) -> Outcome {
+async fn run_idle(
+    cfg: Cfg,
+    seed: u64,
+    stop: Arc<AtomicBool>,
+    max_rounds: u64,
+    wd_s: u64,
+) -> Outcome {
     let addr = IpAddr::V4(Ipv4Addr::LOCALHOST);
     let listener = match crate::verif_hooks::bind_retry("127.0.0.1:0".parse().unwrap()).await {
         Ok(l) => l,
@@ -1885,7 +1891,8 @@ async fn run_idle(cfg: Cfg, seed: u64, stop: Arc<AtomicBool>, max_rounds: u64, w
     if matches!(out.fail, Some(Fail::Closed { .. })) {
         // a connection that went away because the session task panicked
         if let Some((loc, msg)) = LAST_PANIC.lock().unwrap().take() {
-            if loc.starts_with("daemon/") || loc.starts_with("table/") || loc.starts_with("packet/") {
+            if loc.starts_with("daemon/") || loc.starts_with("table/") || loc.starts_with("packet/")
+            {
                 out.fail = Some(Fail::Panic { loc, msg });
             }
         }
@@ -2084,17 +2091,26 @@ fn report_fail<R: FnMut() -> Outcome>(
                 let (sig, what, detail) = match f {
                     Fail::Stuck { stage, detail } => (
                         format!("C01/e2e/no-progress/{}", stage),
-                        format!("the connection is open and the session task runs, but `{}` never completes: what the RIB holds for the neighbour is not put on the wire (reproduced when the history was re-run alone with a longer watchdog)", stage),
+                        format!(
+                            "the connection is open and the session task runs, but `{}` never completes: what the RIB holds for the neighbour is not put on the wire (reproduced when the history was re-run alone with a longer watchdog)",
+                            stage
+                        ),
                         detail.clone(),
                     ),
                     Fail::Lost { stage, detail } => (
                         format!("C01/e2e/lost-update/{}", stage),
-                        format!("a change of the RIB (`{}` of the sentinel prefix) was never put on the wire for the neighbour although the session delivers later changes (reproduced when the history was re-run alone with a longer watchdog)", stage),
+                        format!(
+                            "a change of the RIB (`{}` of the sentinel prefix) was never put on the wire for the neighbour although the session delivers later changes (reproduced when the history was re-run alone with a longer watchdog)",
+                            stage
+                        ),
                         detail.clone(),
                     ),
                     Fail::Closed { stage, .. } => (
                         format!("C01/e2e/session-closed-by-daemon/{}", stage),
-                        format!("the daemon closed the neighbour's connection without a NOTIFICATION although the remote end only sent valid messages and kept the connection open (at `{}`; reproduced when the history was re-run alone)", stage),
+                        format!(
+                            "the daemon closed the neighbour's connection without a NOTIFICATION although the remote end only sent valid messages and kept the connection open (at `{}`; reproduced when the history was re-run alone)",
+                            stage
+                        ),
                         String::new(),
                     ),
                     _ => unreachable!(),
@@ -2280,7 +2296,8 @@ fn run() {
             let fails = |cand: &[Op], budget: &mut i32| -> Option<Mismatch> {
                 for _ in 0..4 {
                     *budget -= 1;
-                    let o = rt.block_on(run_history(&seq, cand, hseed, &l4, l6.as_ref(), WATCHDOG_S));
+                    let o =
+                        rt.block_on(run_history(&seq, cand, hseed, &l4, l6.as_ref(), WATCHDOG_S));
                     if o.fail.is_some() {
                         return None;
                     }
@@ -2427,11 +2444,7 @@ fn run() {
                     let sig = if m.known_pattern {
                         KNOWN_SIG.to_string()
                     } else {
-                        format!(
-                            "C01/e2e/{}/{}/keepalive-interleaved",
-                            m.kind,
-                            branch(&icfg)
-                        )
+                        format!("C01/e2e/{}/{}/keepalive-interleaved", m.kind, branch(&icfg))
                     };
                     rep.violation(
                         &sig,
